@@ -32,7 +32,7 @@ Section Extras.
     destruct (marshal_str_comments quote_words pf cs p) as (H1 & H2 & H3).
     destruct (marshal_str_comments quote_words pf cs c) as (G1 & G2 & G3).
     split; [now rewrite H1, H2, H3, G1, G2, G3|].
-    unfold YamlTree.marshal_str. destruct (needs_quote _ _ p), (needs_quote _ _ c); reflexivity.
+    now rewrite !(marshal_str_tag_eq quote_words pf).
   Qed.
 End Extras.
 
